@@ -16,7 +16,9 @@ RULE = ('Hypothesis draws chains of 1..5 sub_context(**kw) calls, each changing 
         '(strict and tolerant LatexTokenReader) and parse_content dumps are compared on every '
         'string of <= 3 tokens over an alphabet containing every delimiter '
         'configured anywhere in the chain plus a, space, \\, %; the parent\'s get_fields() and token '
-        'sequences must be unchanged by deriving. Non-trivial = chain that changes a delimiter list '
+        'sequences must be unchanged by deriving. Each derived state has the fields of a state constructed from the parent\'s fields with the '
+        'requested ones replaced. Families: group, inline, display, flags, chars, context. '
+        'Non-trivial = chain that changes a delimiter list '
         'while in math mode, or changes one field group while another stays; distinct by chain.')
 ASSUMPTIONS = ['only public API: sub_context, get_fields, ParsingState(**fields), LatexTokenReader, '
                'LatexWalker.parse_content']
